@@ -311,16 +311,32 @@ class Var:
             if wastainted:
                 val = TaintedString(val)
 
+        # An untrusted value that newline_to_br (fmt=multi-line) has
+        # already quoted: it is plain text plus the <br /> tags added there.
+        prequoted = tainted and not isinstance(val, TaintedString) and \
+            args.get('fmt') == 'multi-line'
+
         # next, look for upper, lower, etc
         for f in self.modifiers:
-            if f.__name__ == 'html_quote' and isinstance(val, TaintedString):
+            if f.__name__ == 'html_quote' and \
+               (isinstance(val, TaintedString) or prequoted):
                 # TaintedStrings will be quoted by default, don't double quote.
                 continue
+            if prequoted and f in (url_unquote, url_unquote_plus):
+                # decoding must not bring a '<' back: keep the <br /> tags
+                # added by newline_to_br, quote what the decoding produces
+                val = '<br />'.join(
+                    [f(part).replace('<', '&lt;')
+                     for part in val.split('<br />')])
+                continue
+            marked = isinstance(val, TaintedString)
             if f is html_quote:
                 # bytes are decoded with the template's encoding
                 val = f(val, encoding=self.encoding)
             else:
                 val = f(val)
+            if f is newline_to_br and marked:
+                prequoted = True
 
         if 'size' in args:
             size = args['size']
@@ -344,11 +360,15 @@ class Var:
         if isinstance(val, TaintedString):
             val = val.quoted()
         elif tainted and isinstance(val, str) and '<' in val:
-            # newline_to_br already quoted the untrusted value (and added
-            # its own <br /> tags); a later url_unquote must not be able
-            # to bring a '<' back.
-            val = '<br />'.join(
-                [part.replace('<', '&lt;') for part in val.split('<br />')])
+            # the untrusted value lost its mark on the way (e.g. a method
+            # format returned a container): no '<' of it may get through,
+            # except the <br /> tags newline_to_br added itself
+            if prequoted:
+                val = '<br />'.join(
+                    [part.replace('<', '&lt;')
+                     for part in val.split('<br />')])
+            else:
+                val = val.replace('<', '&lt;')
 
         return val
 
